@@ -15,4 +15,5 @@ func moreFacts() {
 	c06Facts()
 	purgeFacts()
 	c07Facts()
+	cafsFacts()
 }
